@@ -24,7 +24,7 @@ TNext == /\ l <= Len(Trace)
                                    ConstOn |-> E.ConstOn, SnapLen |-> E.SnapLen, winS |-> E.winS, winE |-> E.winE])
               ELSE \E m1 \in {MonStep(mon, E)} :
                      /\ mon' = m1
-                     /\ (m1.v = {} \/ PrintT(<<"VIOL", l, m1.v>>))
+                     /\ (IF m1.v = {} THEN TRUE ELSE PrintT(<<"VIOL", l, m1.v>>))
 
 Consumed == TLCGet("stats").diameter - 1 = Len(Trace)
 =============================================================================
